@@ -16,11 +16,20 @@ import (
 // which numbers keep their kind: i:<int64>, f:<float64 bits>, n:<big text>.
 func Canon(v any) string {
 	var b strings.Builder
-	canon(&b, v)
+	canon(&b, v, 0)
 	return b.String()
 }
 
-func canon(b *strings.Builder, v any) {
+// maxCanonDepth: no input of the checks nests deeper than a few hundred
+// levels; a value deeper than this contains itself (a parser handed out the
+// same container twice) and is rendered as such instead of overflowing the stack.
+const maxCanonDepth = 2000
+
+func canon(b *strings.Builder, v any, depth int) {
+	if depth > maxCanonDepth {
+		b.WriteString("<CYCLE: the value contains itself>")
+		return
+	}
 	switch t := v.(type) {
 	case nil:
 		b.WriteString("null")
@@ -56,7 +65,7 @@ func canon(b *strings.Builder, v any) {
 			if i > 0 {
 				b.WriteByte(',')
 			}
-			canon(b, e)
+			canon(b, e, depth+1)
 		}
 		b.WriteByte(']')
 	case gen.Array:
@@ -65,7 +74,7 @@ func canon(b *strings.Builder, v any) {
 			if i > 0 {
 				b.WriteByte(',')
 			}
-			canon(b, e)
+			canon(b, e, depth+1)
 		}
 		b.WriteByte(']')
 	case map[string]any:
@@ -80,7 +89,7 @@ func canon(b *strings.Builder, v any) {
 				b.WriteByte(',')
 			}
 			b.WriteString(strconv.Quote(k) + ":")
-			canon(b, t[k])
+			canon(b, t[k], depth+1)
 		}
 		b.WriteByte('}')
 	case gen.Object:
@@ -95,7 +104,7 @@ func canon(b *strings.Builder, v any) {
 				b.WriteByte(',')
 			}
 			b.WriteString(strconv.Quote(k) + ":")
-			canon(b, t[k])
+			canon(b, t[k], depth+1)
 		}
 		b.WriteByte('}')
 	default:
